@@ -2,10 +2,12 @@
    input  (EV ...)
      EV = (sissue) | (sissuecut) | (sreply nCALL sCLS) | (swrongseq) | (sbad) | (slost) | (sclose)
         | (sarm scaller|scallerw|sreply) | (sdisarm scaller|scallerw|sreply)
-        | (sother) | (spool sfull|sfree)
+        | (sother) | (spool sfull|sfree) | (shcall) | (snop)
      sother = a well-formed frame whose message type is none of CALL/REPLY/PUSH: a context like that
           of an unbound reply, and - if the read loop hands it on - its handler calls Close()
           from a goroutine of its own
+     shcall = a PUSH frame whose handler issues a call on this session and waits for its completion
+          before it returns (skipped like any PUSH when the pool has no free slot)
      spool  = the goroutine pool has no free slot / has free slots again (Go() fails: the read
           loop handles the frame itself)
           (callerw = gate write.done: a caller parks after its socket write, still holding the call's mutex)
@@ -18,13 +20,37 @@ From Coq Require Import List Arith NArith ZArith Bool Lia.
 From Verif Require Import Base.Bytes Base.Val Model.Lifecycle Model.CallLife Model.Graceful.
 Import ListNotations.
 
-Record rs := mkRs0 { r_s : sess; r_q : list (frame * bool); r_armC : bool; r_armR : bool; r_armW : bool; r_full : bool }.
-(* r_q: the frames on the stream; the flag marks a frame whose handler calls Close()
+Inductive fk := FkNone | FkClose | FkCall.
+Record rs := mkRs0 { r_s : sess; r_q : list (frame * fk); r_armC : bool; r_armR : bool; r_armW : bool; r_full : bool;
+                     r_hc : list nat }.
+(* r_q: the frames on the stream; the flag marks a frame whose handler calls Close() / issues a
+        call of its own and waits for it
+   r_hc: handler contexts (by number) that will do so once their user handler runs
    r_armW: gate write.done armed - a caller parks after its socket write, before AsyncCall returns
    r_full: the goroutine pool is used up *)
-Definition mkRsr (r0 : rs) (s : sess) (q : list (frame * bool)) (c a : bool) : rs := mkRs0 s q c a (r_armW r0) (r_full r0).
-Definition with_w (r : rs) (w : bool) : rs := mkRs0 (r_s r) (r_q r) (r_armC r) (r_armR r) w (r_full r).
-Definition with_full (r : rs) (b : bool) : rs := mkRs0 (r_s r) (r_q r) (r_armC r) (r_armR r) (r_armW r) b.
+Definition mkRsr (r0 : rs) (s : sess) (q : list (frame * fk)) (c a : bool) : rs := mkRs0 s q c a (r_armW r0) (r_full r0) (r_hc r0).
+Definition with_w (r : rs) (w : bool) : rs := mkRs0 (r_s r) (r_q r) (r_armC r) (r_armR r) w (r_full r) (r_hc r).
+Definition with_full (r : rs) (b : bool) : rs := mkRs0 (r_s r) (r_q r) (r_armC r) (r_armR r) (r_armW r) b (r_hc r).
+Definition with_hc (r : rs) (l : list nat) : rs := mkRs0 (r_s r) (r_q r) (r_armC r) (r_armR r) (r_armW r) (r_full r) l.
+
+(* the user handler of context j (running) issues a call and waits for it *)
+Definition hcall_move (r : rs) (j : nat) : option rs :=
+  if existsb (Nat.eqb j) (r_hc r) then
+    match nth_error (hctxs (r_s r)) j with
+    | Some h =>
+        match k_pc h with
+        | K1 =>
+            let i := length (calls (r_s r)) in
+            match hwait_step (issue (r_s r)) j i with
+            | Some s' => Some (with_hc (mkRsr r s' (r_q r) (r_armC r) (r_armR r))
+                                       (filter (fun k => negb (Nat.eqb k j)) (r_hc r)))
+            | None => None
+            end
+        | _ => None
+        end
+    | None => None
+    end
+  else None.
 
 Fixpoint first_some {A} (f : nat -> option A) (n : nat) : option A :=
   match n with
@@ -74,6 +100,9 @@ Definition one_move (r : rs) : option rs :=
   match first_some (reply_free r) n with
   | Some s' => Some (upd_s s')
   | None =>
+  match first_some (hcall_move r) (length (hctxs s)) with
+  | Some r' => Some r'
+  | None =>
   match first_some (fun j => handler_step s j false (wr_of s)) (length (hctxs s)) with
   | Some s' => Some (upd_s s')
   | None =>
@@ -90,21 +119,32 @@ Definition one_move (r : rs) : option rs :=
       | R2 =>
           if negb (sock s) then option_map upd_s (frame_step s FrErr)
           else match r_q r with
-               | (f, closes) :: q =>
+               | (f, k) :: q =>
                            match frame_step s f with
                            | Some s' =>
-                               (* the handler's Close(): only a frame the loop hands on is handled *)
-                               let s'' := if closes && goon (st s')
-                                          then match close_call s' with Some x => x | None => s' end
-                                          else s' in
-                               Some (mkRsr r s'' q (r_armC r) (r_armR r))
+                               (* only a frame the loop hands on is handled *)
+                               match k with
+                               | FkClose =>
+                                   (* the handler's Close() *)
+                                   let s'' := if goon (st s')
+                                              then match close_call s' with Some x => x | None => s' end
+                                              else s' in
+                                   Some (mkRsr r s'' q (r_armC r) (r_armR r))
+                               | FkCall =>
+                                   (* the context the read loop is about to spawn is the next one *)
+                                   let r' := mkRsr r s' q (r_armC r) (r_armR r) in
+                                   if goon (st s') && negb (r_full r)
+                                   then Some (with_hc r' (r_hc r ++ [length (hctxs s')]))
+                                   else Some r'
+                               | FkNone => Some (mkRsr r s' q (r_armC r) (r_armR r))
+                               end
                            | None => None
                            end
                | [] => None
                end
       | _ => None
       end
-  end end end end end end.
+  end end end end end end end.
 
 Fixpoint settle (fuel : nat) (r : rs) : rs :=
   match fuel with
@@ -117,7 +157,7 @@ Definition fdec_of (v : val) : option fdec :=
   else if sym_eqb v "undec" then Some FErrC else if sym_eqb v "undec0" then Some FErr0
   else if sym_eqb v "hook" then Some FHook else if sym_eqb v "panic" then Some FPanic else None.
 
-Definition enq (r : rs) (f : frame) : rs := mkRsr r (r_s r) (r_q r ++ [(f, false)]) (r_armC r) (r_armR r).
+Definition enq (r : rs) (f : frame) : rs := mkRsr r (r_s r) (r_q r ++ [(f, FkNone)]) (r_armC r) (r_armR r).
 
 Definition do_ev (r : rs) (ev : val) : option rs :=
   match ev with
@@ -138,7 +178,7 @@ Definition do_ev (r : rs) (ev : val) : option rs :=
                 | Some c =>
                     match c_a c with
                     | A2w => match caller_step s2 i false WOther with
-                             | Some s3 => Some (mkRsr r (set_conn s3 false) (r_q r ++ [(FrErr, false)]) (r_armC r) (r_armR r))
+                             | Some s3 => Some (mkRsr r (set_conn s3 false) (r_q r ++ [(FrErr, FkNone)]) (r_armC r) (r_armR r))
                              | None => None
                              end
                     | _ => Some (mkRsr r s2 (r_q r) (r_armC r) (r_armR r))
@@ -151,10 +191,13 @@ Definition do_ev (r : rs) (ev : val) : option rs :=
         end
       else if bytes_eqb k (str "wrongseq") then Some (enq r (FrReply 1000 FOk))
       else if bytes_eqb k (str "bad") then Some (enq r FrErr)
+      else if bytes_eqb k (str "nop") then Some r
+      else if bytes_eqb k (str "hcall") then
+        Some (mkRsr r (r_s r) (r_q r ++ [(FrPush, FkCall)]) (r_armC r) (r_armR r))
       else if bytes_eqb k (str "other") then
-        Some (mkRsr r (r_s r) (r_q r ++ [(FrReply 1000 FOk, true)]) (r_armC r) (r_armR r))
+        Some (mkRsr r (r_s r) (r_q r ++ [(FrReply 1000 FOk, FkClose)]) (r_armC r) (r_armR r))
       else if bytes_eqb k (str "lost") then
-        Some (mkRsr r (set_conn (r_s r) false) (r_q r ++ [(FrErr, false)]) (r_armC r) (r_armR r))
+        Some (mkRsr r (set_conn (r_s r) false) (r_q r ++ [(FrErr, FkNone)]) (r_armC r) (r_armR r))
       else if bytes_eqb k (str "close") then
         match close_call (r_s r) with
         | Some s' => Some (mkRsr r s' (r_q r) (r_armC r) (r_armR r))
@@ -205,7 +248,10 @@ Definition obs (r : rs) (closing : bool) : val :=
               then VL [vsym "flux"]
               else VL [ (if pending then vsym "pending" else vsym "done");
                         VN (N.of_nat (c_sends c));
-                        (if pending then vsym "none" else class_of (c_stat c)) ]) (calls s));
+                        (if pending then vsym "none"
+                         else if negb (conn s) && (match c_stat c with StConnClosed | StWriteFailed => true | _ => false end)
+                              then vsym "connerr"   (* after the loss: which of the two depends on a race *)
+                              else class_of (c_stat c)) ]) (calls s));
        VN (if dw then 0%N else N.of_nat (length (filter c_tab (calls s))));
        status_sym (st s);
        (match rd s with
@@ -234,7 +280,7 @@ Definition live0 : sess := mkSess Ok true true 0 0 0 0 [] [] R2 CIdle 0%N true 0
 
 Definition run (inp : val) : option val :=
   match inp with
-  | VL evs => option_map VL (run_evs 3000 (mkRs0 live0 [] false false false false) false evs)
+  | VL evs => option_map VL (run_evs 3000 (mkRs0 live0 [] false false false false []) false evs)
   | _ => None
   end.
 
